@@ -33,6 +33,12 @@ def _expansion(ex, st, nodes, i):
 HANDDOWN = [
     # an operation that has a relation keeps its link; a relation-less first-level operation receives THIS block's link; nothing else changes
     "forall_obj(ICircuitOperation, lambda o: old(o.relation_link.reference_node) is None or o.relation_link is old(o.relation_link))",
+    # for trees (ghost relations of contracts/c06.py): only the own sub-tree is touched, the own link is not, and EVERY relation-less
+    # first-level operation ends up with this block's link (the hand-down happens)
+    "not self.tree_ok or forall_obj(ICircuitOperation, lambda o: self.inside(o) or o.relation_link is old(o.relation_link))",
+    "not self.tree_ok or self.relation_link is old(self.relation_link)",
+    f"not self.tree_ok or forall({NODES}, lambda n: let(n.operation, lambda x: old(x.relation_link.reference_node) is not None or "
+    "x.relation_link is self.relation_link))",
 ]
 contract("CircuitCompositeOperation.decomposed_operations:expansion", params=dict(self=CCO), returns=SEQ(OP), props=P, inst_depth=2,
          modifies=REL_FIELDS,
@@ -41,7 +47,12 @@ contract("CircuitCompositeOperation.decomposed_operations:expansion", params=dic
                 0: ["seq_is(result, expansion(_xs, _i))",
                     # whether a link refers to something does not change (link objects are never modified; only which link an operation holds)
                     "forall_obj(IRelationLink, lambda l: (l.reference_node is None) == old(l.reference_node is None))",
-                    "forall_obj(ICircuitOperation, lambda o: old(o.relation_link.reference_node) is None or o.relation_link is old(o.relation_link))"]})
+                    "forall_obj(ICircuitOperation, lambda o: old(o.relation_link.reference_node) is None or o.relation_link is old(o.relation_link))",
+                    "not self.tree_ok or forall_obj(ICircuitOperation, lambda o: self.inside(o) or o.relation_link is old(o.relation_link))",
+                    "not self.tree_ok or self.relation_link is old(self.relation_link)",
+                    "not self.tree_ok or forall_int(_i, len(_xs), lambda j: _xs[j].operation.relation_link is old(_xs[j].operation.relation_link))",
+                    "not self.tree_ok or forall_int(0, _i, lambda j: let(_xs[j].operation, lambda x: old(x.relation_link.reference_node) is not None or "
+                    "x.relation_link is self.relation_link))"]})
 for fam in ["SingleQubitOperation", "TwoQubitOperation", "DispersiveMeasure", "Barrier"]:
     contract(f"{fam}.decomposed_operations:expansion", params=dict(self=REF(fam)), returns=SEQ(OP), props=P, pure=True,
              ensures=["len(result) == 1", "result[0] is self"])
